@@ -177,6 +177,23 @@ def summarise(ev, paths, effect, known_some=()):
     """effect(event) -> int weight | term weight | None.  Returns list of Summary for paths that leave the
     function (return / diverge); loop iterations are folded in.  Raises Unresolved."""
     loops = ev.loops
+    # Effects performed by a closure that an iterator adaptor drives (`range.try_for_each(|_| sink.write(..))`) are not visible
+    # as events of this body: rather than miscounting them, say so.
+    F = ev.body.facts
+    for r in paths:
+        for e in r.events:
+            if e['kind'] != 'call' or not str(e['callee']).startswith('core::iter::'):
+                continue
+            for a in e.get('args_val') or []:
+                for x in sym.subterms(a) if isinstance(a, tuple) else []:
+                    if isinstance(x, tuple) and x and x[0] == 'agg' and isinstance(x[1], tuple) and x[1][0] == 'closure':
+                        cb = F.by_def.get(x[1][1])
+                        if cb is None:
+                            continue
+                        from . import rules as _rules
+                        _, cp = _rules.evaluate(cb)
+                        if cp is None or any(ce['kind'] == 'call' and ce.get('mut_paths') for q in cp for ce in q.events) or any(ce['kind'] in ('write', 'write_ref') and ce.get('path', (0,))[0] == 1 for q in cp for ce in q.events):
+                            raise Unresolved('effects happen inside a closure driven by %s; the effect counter reads loops only' % str(e['callee']).split('::')[-1])
     # per-iteration effects per loop head from back-edge paths
     per_iter = {}
     for r in paths:
